@@ -40,7 +40,7 @@ Next ==
        [] Ev.ev = "eof" -> eof' = TRUE /\ Un(<<kind, n, started, got, closedIn, demand, returned, srcSt, srcClosed, pend, closed, cancelled, gotD>>)
        [] Ev.ev = "mret" -> returned' = TRUE /\ Ev.panic = 0 /\ Un(<<kind, n, started, got, closedIn, demand, eof, srcSt, srcClosed, pend, closed, cancelled, gotD>>)
        [] Ev.ev = "srcend" -> srcSt' = [srcSt EXCEPT ![Ev.i + 1] = 1] /\ Un(<<kind, n, started, got, closedIn, demand, returned, eof, srcClosed, pend, closed, cancelled, gotD>>)
-       [] Ev.ev = "srcerr" -> srcSt' = [srcSt EXCEPT ![Ev.i + 1] = 2] /\ Un(<<kind, n, started, got, closedIn, demand, returned, eof, srcClosed, pend, closed, cancelled, gotD>>)
+       [] Ev.ev = "srcerr" -> srcSt' = [srcSt EXCEPT ![Ev.i + 1] = (IF Ev.c = 1 THEN 3 ELSE 2)] /\ Un(<<kind, n, started, got, closedIn, demand, returned, eof, srcClosed, pend, closed, cancelled, gotD>>)
        [] Ev.ev = "srcclose" -> srcClosed' = [srcClosed EXCEPT ![Ev.i + 1] = @ + 1] /\ Un(<<kind, n, started, got, closedIn, demand, returned, eof, srcSt, pend, closed, cancelled, gotD>>)
        [] Ev.ev = "srcviol" -> FALSE        \* the instrumented source saw Next after Close / a second Close / overlapping calls (C09)
        [] Ev.ev = "cancel" -> cancelled' = cancelled \cup {Ev.ctx} /\ Un(<<kind, n, started, got, closedIn, demand, returned, eof, srcSt, srcClosed, pend, closed, gotD>>)
@@ -56,7 +56,7 @@ Next ==
                     \/ /\ Ev.res.k = "end" /\ Un(got)          \* End exactly when all inputs are exhausted and everything was delivered
                        /\ (closed >= 1 \/ ((\A i \in 1..n : srcSt[i] = 1) /\ AllOut(got)))
                     \/ /\ Ev.res.k = "err" /\ Ev.res.e = "src" /\ Un(got) /\ (closed >= 1 \/ \E i \in 1..n : srcSt[i] = 2)
-                    \/ /\ Ev.res.k = "err" /\ Ev.res.e = "ctx" /\ Un(got) /\ (closed >= 1 \/ pend[Ev.id].ctx \in cancelled)
+                    \/ /\ Ev.res.k = "err" /\ Ev.res.e = "ctx" /\ Un(got) /\ (closed >= 1 \/ pend[Ev.id].ctx \in cancelled \/ \E i \in 1..n : srcSt[i] = 3)   \* 3: an input failed with context.Canceled itself
                     \/ /\ Ev.res.k = "err" /\ Ev.res.e = "closedpipe" /\ Un(got) /\ closed >= 1
                ELSE /\ closed' = 2 /\ Un(got)
                     /\ (kind = "stream" => \A i \in 1..n : srcClosed[i] = 1)   \* by the time Close returns every input has been closed (C09)
@@ -77,7 +77,7 @@ Next ==
                                 \/ /\ pend[i].ctx \notin cancelled
                                    /\ AllOut(got)                                      \* nothing taken from an input is held back
                                    /\ ~(\A j \in 1..n : srcSt[j] = 1)                  \* all inputs exhausted => End
-                                   /\ ~(\E j \in 1..n : srcSt[j] = 2)                  \* an input failed => its error
+                                   /\ ~(\E j \in 1..n : srcSt[j] >= 2)                 \* an input failed => its error
                       \* after the output's Close returned: the goroutines are gone and every input is closed exactly once
                       /\ (closed = 2 => (Ev.srcbusy = 0 /\ \A j \in 1..n : srcClosed[j] = 1))
                       /\ \A j \in 1..n : srcClosed[j] <= 1
